@@ -1,5 +1,5 @@
 (* C16 — EC shard balancing never loses, duplicates or overfills.
-   Only statements closed by [exact]; proofs live in proof/EcBalance{Base,Inv,Spread,Proofs}.v.
+   Only statements closed by [exact]; proofs live in proof/EcBalance{Base,Inv,Spread,Proofs,Key,Rack}.v.
 
    Vocabulary (model/EcBalance.v): the books are [nodes] (per node: free EC slots and,
    per volume, a shard bit set) and [racks] (free slot counter per rack id).
@@ -11,7 +11,7 @@
    hold shard s of volume v.  All theorems quantify over every snapshot and every
    oracle the model accepts. *)
 From Coq Require Import List NArith ZArith Bool.
-From SW Require Import model.EcBalance proof.EcBalanceBase proof.EcBalanceInv proof.EcBalanceSpread proof.EcBalanceProofs.
+From SW Require Import model.EcBalance proof.EcBalanceBase proof.EcBalanceInv proof.EcBalanceSpread proof.EcBalanceProofs proof.EcBalanceKey proof.EcBalanceRack.
 Import ListNotations.
 
 (* ---- one move (moveMountedShardToEcNode bookkeeping) : FULL ----
@@ -39,6 +39,15 @@ Theorem c16_move_targets : forall st o st' its,
   forall e m, In (IMove e m) its -> m_dst_held m = false /\ (0 < m_dst_free m)%Z.
 Proof. exact plan_targets. Qed.
 Print Assumptions c16_move_targets.
+
+(* FULL, needs neither uniqueness nor absence of drops: every guard of every phase tests
+   freeEcSlot of the destination on the books of that moment, so "planned onto a server without
+   a free slot" can never hide inside the trigger set of a finding. *)
+Theorem c16_move_free : forall st o st' its,
+  run_plan false st o = Some (st', its) -> wf (nodes st) ->
+  forall e m, In (IMove e m) its -> (0 < m_dst_free m)%Z.
+Proof. exact plan_move_free. Qed.
+Print Assumptions c16_move_free.
 
 (* the witness of the repaired defect (full node with 8 shards, free -1, next to an empty
    node with 0 free slots): the repaired planner moves nothing *)
@@ -75,6 +84,56 @@ Theorem c16_plan_conserves_partial : forall st o st' its,
 Proof. exact plan_conserves_partial. Qed.
 Print Assumptions c16_plan_conserves_partial.
 
+(* PARTIAL, PER KEY (strictly stronger than c16_plan_conserves_partial): the two findings are about one
+   (volume, shard) each and nothing else is affected.  Whatever happens to other shards - duplicates
+   in the snapshot, picks that are abandoned - a shard (v,s) that is on at most one node in the
+   snapshot ([dup_key] false) is never on more nodes afterwards, is on exactly as many nodes afterwards
+   unless the run abandoned a pick of THAT shard ([drops_key]), and is never planned onto a node that
+   already holds it. *)
+Theorem c16_plan_conserves_key : forall st o st' its,
+  run_plan false st o = Some (st', its) -> wf (nodes st) ->
+  forall v s, (total (nodes st) v s <= 1)%nat ->
+    (total (nodes st') v s <= total (nodes st) v s)%nat /\
+    (drops_key its v s = false -> total (nodes st') v s = total (nodes st) v s) /\
+    (forall e m, In (IMove e m) its -> m_vid m = v -> m_shard m = s -> m_dst_held m = false).
+Proof. exact plan_conserves_key. Qed.
+Print Assumptions c16_plan_conserves_key.
+
+(* FULL: the drop trigger is decidable on the PRINTED plan.  On the racks collectRacks builds
+   ([init_state]) EcRack.freeEcSlot never exceeds the free slots of the rack's nodes, so when pickOneRack
+   finds a rack pickOneEcNodeAndMoveOneShard finds a node in it: a pick is never abandoned silently, and
+   the abandoned picks of (v,s) are exactly the lines "ec shard v.s at X can not find a destination rack". *)
+Theorem c16_drops_are_printed : forall ns o st' its,
+  run_plan false (init_state ns) o = Some (st', its) -> wf ns ->
+  (forall i, In i its -> is_silent_drop i = false) /\
+  (forall v s, drops_key its v s = printed_norack (events_of its) v s).
+Proof. exact plan_drops_are_printed. Qed.
+Print Assumptions c16_drops_are_printed.
+
+(* PARTIAL, per key, every hypothesis decidable on the snapshot and the printed plan *)
+Theorem c16_plan_conserves_key_printed : forall ns o st' its,
+  run_plan false (init_state ns) o = Some (st', its) -> wf ns ->
+  forall v s, dup_key ns v s = false -> printed_norack (events_of its) v s = false ->
+    total (nodes st') v s = total ns v s.
+Proof. exact plan_conserves_key_printed. Qed.
+Print Assumptions c16_plan_conserves_key_printed.
+
+(* PARTIAL, every hypothesis decidable on the SNAPSHOT: books where every volume already respects the
+   spread limit on every rack ([rack_balanced]) abandon nothing and move nothing across racks; without
+   duplicated shards they conserve every shard. *)
+Theorem c16_balanced_no_drop : forall ns o st' its,
+  run_plan false (init_state ns) o = Some (st', its) -> wf ns -> rack_balanced ns = true ->
+  has_drop its = false /\ forall e m, In (IMove e m) its -> m_kind m <> KAcross.
+Proof. exact plan_balanced_calm. Qed.
+Print Assumptions c16_balanced_no_drop.
+
+Theorem c16_plan_conserves_snapshot : forall ns o st' its,
+  run_plan false (init_state ns) o = Some (st', its) ->
+  wf ns -> bits32 ns = true -> has_dup ns = false -> rack_balanced ns = true ->
+  (forall v s, total (nodes st') v s = total ns v s) /\ exactly_once_after ns (nodes st').
+Proof. exact plan_conserves_snapshot. Qed.
+Print Assumptions c16_plan_conserves_snapshot.
+
 (* FULL (no duplication): whatever is abandoned, a plan on duplicate-free books never
    creates a second copy and never raises a copy count. *)
 Theorem c16_plan_never_duplicates : forall st o st' its,
@@ -108,3 +167,20 @@ Example c16_example :
     length (filter (fun i => match i with IMove _ _ => true | _ => false end) its) = 8%nat /\
     map (fun n => find n 1%N) (nodes st') = [16256; 126; 1]%N.
 Proof. exact example_run. Qed.
+Print Assumptions c16_example.
+
+(* non-vacuity for balanceEcRacks (and for [rack_balanced], [gate]): one rack, a loaded server and an empty
+   one; the plan is two rack moves (1.0 then 2.0), nothing is lost, free slots move with the shards. *)
+Example c16_example_rack :
+  wf ex_rack_nodes /\ bits32 ex_rack_nodes = true /\ has_dup ex_rack_nodes = false /\ gate ex_rack_nodes = true /\
+  exists st' its, run_plan false (init_state ex_rack_nodes) ex_rack_orc = Some (st', its) /\
+    has_drop its = false /\
+    events_of its = [ERackMove 0 1 0 1; ERackMove 0 2 0 1]%N /\
+    length (filter is_rack_move its) = 2%nat /\
+    map (fun n => (n_free n, find n 1%N, find n 2%N)) (nodes st') = [(8%Z, 1%N, 1%N); (4%Z, 14%N, 2%N)].
+Proof. exact example_rack_run. Qed.
+Print Assumptions c16_example_rack.
+
+Example c16_example_rack_balanced : rack_balanced ex_rack_nodes = true /\ rack_balanced ex_nodes = false.
+Proof. exact example_balanced. Qed.
+Print Assumptions c16_example_rack_balanced.
